@@ -25,7 +25,7 @@ RULE = ("sequence = 2-6 operands drawn from {compressible text, random, empty, m
         "processed operands of different kinds; distinct by sequence hash")
 
 KINDS = ["text", "random", "empty", "multi", "runs", "suffixed", "missing", "hardlink", "corrupt", "exists", "plainname",
-         "tbz"]
+         "tbz", "passthrough"]
 
 OPERAND = st.fixed_dictionaries({
     "kind": st.sampled_from(KINDS + ["text", "random", "multi"]),
@@ -36,18 +36,40 @@ OPERAND = st.fixed_dictionaries({
 })
 
 
+TINY = st.fixed_dictionaries({
+    "kind": st.sampled_from(["exists", "exists", "exists", "text", "empty", "missing", "suffixed"]),
+    "seed": st.integers(0, 2**30), "size": st.sampled_from([1, 40]), "mode": st.just(0o644),
+    "mtime": st.integers(10**9, 1700000000 * 10**9),
+})
+
+
 def strategy():
-    return st.fixed_dictionaries({
+    usual = st.fixed_dictionaries({
         "ops": st.lists(OPERAND, min_size=2, max_size=6),
         "decompress": st.booleans(),
         "u": st.booleans(), "k": st.booleans(), "c": st.sampled_from([False, False, True]),
+        "f": st.sampled_from([False, False, False, True]),
         "n": st.sampled_from([1, 3, 16]),
         "level": st.sampled_from([1, 1, 2, 9]),
+        "nofile": st.just(0),
     })
+    # long operand lists under a small descriptor limit: whatever an operand leaves open adds up
+    many = st.fixed_dictionaries({
+        "ops": st.lists(TINY, min_size=14, max_size=24),
+        "decompress": st.booleans(),
+        "u": st.just(False), "k": st.booleans(), "c": st.just(False), "f": st.just(False),
+        "n": st.sampled_from([1, 2]),
+        "level": st.just(1),
+        "nofile": st.sampled_from([12, 16]),
+    })
+    return st.one_of(usual, usual, usual, usual, usual, usual, usual, usual, usual, many)
 
 
 def content_for(o, decompress):
     k, sd, sz = o["kind"], o["seed"], o["size"]
+    if k == "passthrough":
+        import random
+        return b"not a bzip2 file " + random.Random(sd).randbytes([0, 10, 70000, 200000][sd % 4])
     if k in ("text", "suffixed", "hardlink", "exists", "plainname", "tbz", "corrupt", "missing"):
         d = plain.seg_bytes(("text", sz // 5 + 1, sd))[:sz]
     elif k == "random":
@@ -80,6 +102,8 @@ def build(td, c):
                 b = bytearray(z)
                 b[len(b) // 2] ^= 0x04
                 z = bytes(b)
+            if k == "passthrough":
+                z = d          # not bzip2 at all: copied unchanged by -dfc, fatal otherwise
             content = z
             outn = base + (".tar" if k == "tbz" else ".out" if k == "plainname" else "")
         else:
@@ -123,7 +147,17 @@ def flags(c):
         a.append("-k")
     if c["c"]:
         a.append("-c")
+    if c.get("f"):
+        a.append("-f")
     return a
+
+
+def _limit(c):
+    if not c.get("nofile"):
+        return None
+    import resource
+    n = c["nofile"]
+    return lambda: resource.setrlimit(resource.RLIMIT_NOFILE, (n, n))
 
 
 def make_eval(exe):
@@ -138,10 +172,10 @@ def make_eval(exe):
             shutil.rmtree(d2)
             os.mkdir(d2)
             build(d2, c)
-            r1 = core.run([exe] + flags(c) + ["--"] + names, cwd=d1, timeout=180)
+            r1 = core.run([exe] + flags(c) + ["--"] + names, cwd=d1, timeout=180, preexec=_limit(c))
             outs, rcs, errs = [], [], []
             for nme in names:
-                r = core.run([exe] + flags(c) + ["--", nme], cwd=d2, timeout=180)
+                r = core.run([exe] + flags(c) + ["--", nme], cwd=d2, timeout=180, preexec=_limit(c))
                 outs.append(r.out)
                 rcs.append(r.rc)
                 errs.append(r.err)
@@ -177,12 +211,14 @@ def make_eval(exe):
         processed = [o["kind"] for o, rc in zip(c["ops"], rcs) if rc == 0]
         nontriv = len(set(processed)) >= 2
         labels = ["decompress" if c["decompress"] else "compress", "workers=%d" % c["n"], "status=%d" % want]
-        labels += ["-" + f for f in "ukc" if c[f]] + ["kind=" + o["kind"] for o in c["ops"]]
+        labels += ["-" + f for f in "ukcf" if c.get(f)] + sorted({"kind=" + o["kind"] for o in c["ops"]})
+        if c.get("nofile"):
+            labels.append("long-list-under-small-descriptor-limit")
         if 1 in rcs:
             labels.append("fatal-operand-stops-run")
         stats.add(core.fp(c), nontriv, labels,
                   {"kinds": [o["kind"] for o in c["ops"]], "decompress": c["decompress"],
-                   "flags": [f for f in "ukc" if c[f]], "n": c["n"], "single_statuses": rcs, "combined": r1.rc})
+                   "flags": [f for f in "ukcf" if c.get(f)], "operands": len(c["ops"]), "n": c["n"], "single_statuses": rcs, "combined": r1.rc})
         if bad:
             f = dict(case)
             f["what"] = bad
@@ -209,7 +245,7 @@ def replay_file(path):
 def run(tier, seed):
     t0 = time.time()
     exe = core.build("rel")
-    n = 900 if tier == "quick" else 20000
+    n = 640 if tier == "quick" else 20000
     stats, fails = core.hyp_search(strategy, make_eval(exe), n, seed)
     oc = core.conclude(PID, fails, replay_case)
     core.write_evidence(PID, tier, seed, "exploration", stats, RULE, time.time() - t0, violations=len(oc.violations),
